@@ -1,6 +1,7 @@
 package model
 
 import (
+	"regexp"
 	"strings"
 )
 
@@ -157,11 +158,12 @@ func (c SliceLoopAssignment) String() string {
 	sb.WriteString(c.Typ)
 	sb.WriteString(", len(")
 	sb.WriteString(c.RHS)
-	sb.WriteString("))\nfor i, e := range ")
+	idx, elem := loopVarNames(c.LHS)
+	sb.WriteString("))\nfor " + idx + ", " + elem + " := range ")
 	sb.WriteString(c.RHS)
 	sb.WriteString("{\n")
 	sb.WriteString(c.LHS)
-	sb.WriteString("[i] = e\n}\n}\n")
+	sb.WriteString("[" + idx + "] = " + elem + "\n}\n}\n")
 	return sb.String()
 }
 
@@ -189,17 +191,41 @@ func (c SliceTypecastAssignment) String() string {
 	sb.WriteString(c.Typ)
 	sb.WriteString(", len(")
 	sb.WriteString(c.RHS)
-	sb.WriteString("))\nfor i, e := range ")
+	idx, elem := loopVarNames(c.LHS, c.Cast)
+	sb.WriteString("))\nfor " + idx + ", " + elem + " := range ")
 	sb.WriteString(c.RHS)
 	sb.WriteString("{\n")
 	sb.WriteString(c.LHS)
-	sb.WriteString("[i] = ")
+	sb.WriteString("[" + idx + "] = ")
 	sb.WriteString(c.Cast)
-	sb.WriteString("(e)\n}\n}\n")
+	sb.WriteString("(" + elem + ")\n}\n}\n")
 	return sb.String()
 }
 
 // RetError returns whether the assignment returns an error value.
 func (c SliceTypecastAssignment) RetError() bool {
 	return false
+}
+
+// loopIdentRe matches the identifiers of an expression.
+var loopIdentRe = regexp.MustCompile(`[\pL_][\pL\pN_]*`)
+
+// loopVarNames picks the index and element variable names of a copy loop: i and e,
+// lengthened (ii, ee, ...) while an expression used inside the loop already refers to
+// that name - a receiver called e, a package imported as i, and so on.
+func loopVarNames(inLoop ...string) (idx, elem string) {
+	used := make(map[string]bool)
+	for _, expr := range inLoop {
+		for _, id := range loopIdentRe.FindAllString(expr, -1) {
+			used[id] = true
+		}
+	}
+	idx, elem = "i", "e"
+	for used[idx] {
+		idx += "i"
+	}
+	for used[elem] {
+		elem += "e"
+	}
+	return
 }
